@@ -35,8 +35,11 @@ harness's key names; extra implementation keys are checked by the spec below -/
 def handle (inp impl : Json) : CaseResult :=
   if jstr inp "scene" == "bootnode" then handleBoot inp impl else
   let shape := jstr inp "bid_shape"
-  let wd : World := ⟨jbool inp "staked", jbool inp "allowed", shape == "" || shape == "valid", jstr inp "engine" != "reject"⟩
-  let o := scenario nodeWire wd
+  let wd : World := ⟨jbool inp "staked", jbool inp "allowed", shape == "" || shape == "valid" || shape == "padded-amount", jstr inp "engine" != "reject"⟩
+  let o1 := scenario nodeWire wd
+  -- a second request through the same nodes is handled like the first
+  let k := if jbool inp "sibling" then 2 else 1
+  let o := { o1 with commitments := k * o1.commitments, engineSaw := k * o1.engineSaw }
   let ops := jbool inp "ops"
   let fate : TxFate := match jstr inp "ops_fault" with
     | "revert" => .reverted
